@@ -63,6 +63,7 @@ CombRef(kind, c, iv, iw, ow) ==
           IN  IF c.co = 1 THEN <<s % Pow2(ow[1]), BitAt(s % Pow2(ow[1] + 1), ow[1])>> ELSE <<s % Pow2(ow[1])>>
     [] kind = "AddCarryIn" -> <<(iv[1] + iv[2] + iv[3]) % Pow2(ow[1])>>
     [] kind = "Sub" -> <<(iv[1] - iv[2]) % Pow2(ow[1])>>
+    [] kind = "SubBorrowIn" -> <<(iv[1] - iv[2] - iv[3]) % Pow2(ow[1])>>
     [] kind = "Neg" -> <<(-iv[1]) % Pow2(ow[1])>>
     [] kind = "Abs" -> LET a == Abs(ToSigned(iv[1], iw[1])) % Pow2(ow[1])
                        IN  IF c.inv = 1 THEN <<a, Msb(iv[1], iw[1])>> ELSE <<a>>
